@@ -40,6 +40,8 @@ def run(chk, tier, seed, replay=None):
         if r.random() < 0.3:
             o['shuffle'] = True
             o['shuffle_seed'] = r.randrange(100)
+        if r.random() < 0.2:
+            o['color'] = True
         return o
     # mostly passing tests with a few bad ones => first bad test lands at
     # first / middle / last positions of first / middle / last layers
